@@ -144,6 +144,9 @@ def main(argv):
     scripts = [("single-small", c09.script_single("small")), ("single-bigmeta", c09.script_single("bigmeta"))]
     if not quick:
         scripts.append(("single-autoflush", c09.script_single("autoflush")))
+        al = rt.align_script(drv, c09.script_single("small"), 1024, chk.scratch, inline=True)
+        if al:
+            scripts.append(("single-aligned-1024", al[0]))
     modes = ["direct", "tmp-tmpfs"] + ([] if quick else ["tmp-disk"])
     work = []
     npoints = {}
